@@ -393,6 +393,10 @@ func modelExt(extID byte, payload []byte) expect {
 		seenKeys[k] = true
 	}
 	mayStop := len(rest) > 0 && extID != 1 // trailing bytes after a handshake/pex dict: a strict reader may refuse them
+	if valueDepth(d) > 32 {
+		// the property allows dropping a peer; a reader that refuses absurdly deep (hostile) nesting is within it
+		mayStop = true
+	}
 	str := func(k string) string {
 		x, ok := d.Get(k)
 		if !ok {
@@ -959,4 +963,28 @@ func firstLines(s string, n int) string {
 		ls = ls[:n]
 	}
 	return strings.Join(ls, " | ")
+}
+
+
+// valueDepth is the nesting depth of a decoded reference value.
+func valueDepth(v any) int {
+	switch x := v.(type) {
+	case *refcodec.Dict:
+		m := 0
+		for _, e := range x.Vals {
+			if d := valueDepth(e); d > m {
+				m = d
+			}
+		}
+		return m + 1
+	case []any:
+		m := 0
+		for _, e := range x {
+			if d := valueDepth(e); d > m {
+				m = d
+			}
+		}
+		return m + 1
+	}
+	return 0
 }
